@@ -44,7 +44,7 @@ def gen(g, count, dense):
     r = g.r
     for n in range(count):
         big = (n % 3 == 2)
-        book = g.book(depth=1, exact=True, per_layer=3 if not big else 6, unusual=0.1)
+        book = g.book(depth=1, exact=True, per_layer=3 if not big else (6 if n % 2 else 120), unusual=0.1)
         if len(spec.book_map(book)) != len(book):
             continue
         log = g.log(book=book, exact=True, days=2 if not big else 40, max_entries=3 if not big else 10, dates=None, unusual=0.1)
@@ -106,6 +106,9 @@ def run(ctx):
         if k < n and i.get('status') == 'ok':
             ctx.problem('oracle', '`%s` exits 0 although the sink failed after %d of %d bytes' % (c.meta['kind'], k, n), c,
                         {'written': unhx(i.get('out', '')).decode('utf-8', 'replace')[-200:]}, signature='lost-output-exit-0:' + c.meta['kind'].split(' ')[0])
+        if i.get('status') in ('panic', 'crash', 'timeout'):
+            ctx.problem('oracle', '`%s` %s when the sink fails after %d of %d bytes' % (c.meta['kind'], {'panic': 'panics', 'crash': 'crashes', 'timeout': 'hangs'}[i['status']], k, n), c,
+                        {'text': unhx(i.get('text', '') or '').decode('utf-8', 'replace')[:300]}, signature='sink-failure-crash:' + c.meta['kind'].split(' ')[0])
         if k >= n and i.get('status') != 'ok':
             ctx.problem('oracle', '`%s` fails although the complete report (%d bytes) was written' % (c.meta['kind'], n), c, {'class': i.get('class')}, signature='complete-output-fails')
         if 0 < k < n:
